@@ -122,6 +122,10 @@ def run_case(case):
                 specs.append({'name': 'zzz', 'keys': {'k1': 'none', 'k2': 0}})
         for k in kinds:
             cov['config']['unpivot/' + k + ('' if regex else '/noregex')] = 1
+        if rng.random() < 0.25 and specs:
+            # one entry does not give a value for every extra key: the rows it produces carry null there
+            specs[rng.randrange(len(specs))]['keys'].pop('k2', None)
+            cov['config']['unpivot/spec_without_all_keys'] = 1
         extra_keys = [{'name': 'k1', 'type': 'string'}, {'name': 'k2', 'type': 'any'}]
         extra_value = {'name': 'val', 'type': 'string'}
         step = d.unpivot(copy.deepcopy(specs), copy.deepcopy(extra_keys), copy.deepcopy(extra_value),
@@ -150,6 +154,12 @@ def run_case(case):
             # the input declares a (valid) primary key on a kept field
             pre = [d.set_primary_key(['id'])]
             cov['config']['unpivot/primary_key_on_kept_field'] = 1
+        elif 'id' in kept and rng.random() < 0.3:
+            # ... or a field-level unique constraint
+            for f_ in sfields:
+                if f_['name'] == 'id':
+                    f_['constraints'] = {'unique': True}
+            cov['config']['unpivot/unique_constraint_on_kept_field'] = 1
     else:
         fields = FIELDS
         sfields = gen.schema_fields(fields)
@@ -240,6 +250,16 @@ def run_case(case):
         counters['rows_compared'] += len(R)
         gpk = gdesc['schema'].get('primaryKey') or []
         gpk = [gpk] if isinstance(gpk, str) else list(gpk)
+        if fam == 'unpivot' and rn in selected:
+            for f_ in gdesc['schema']['fields']:
+                if (f_.get('constraints') or {}).get('unique') and \
+                        len({repr(r_.get(f_['name'])) for r_ in grows}) != len(grows):
+                    add('unique_constraint', 'unpivot %r: field %r is still declared unique but its cells are repeated in the '
+                        '%d emitted rows of %s' % (cfg, f_['name'], len(grows), rn))
+            for r_ in grows:
+                if set(r_) != set(gnames):
+                    add('row_keys', 'unpivot %r: emitted row keys %r, declared fields %r' % (cfg, sorted(r_), gnames))
+                    break
         if fam == 'unpivot' and gpk:
             if any(k not in gnames for k in gpk):
                 add('primary_key', 'unpivot: emitted primaryKey %r names undeclared fields %r' % (gpk, gnames))
